@@ -79,7 +79,9 @@ func verifCopyGradient(l *GradientLimit) *GradientLimit {
 //
 //verif:harness property=C08 theory=real tier=quick timeout=120
 func VerifC08_Gradient() {
-	verifQuickSmooth = 1
+	// quick tier: smoothing 1.0 and the library default 0.2 (with 1.0 alone the smoothed and the raw
+	// decrease coincide and a rewrite of the smoothing clause goes unnoticed)
+	verifQuickSmooth = 2
 	a, hiBound := verifGradientState(true)
 	b := verifCopyGradient(a)
 	base := a.rttNoLoadMeasurement.Get()
